@@ -22,12 +22,16 @@ def choice_reps(seq):
     if seq and isinstance(seq[0], dict):
         by = {}
         for e in seq:
-            by.setdefault((len(e.get("bank_code") or ""), bool(e.get("bic"))), e)
+            # one representative per shape of entry: length and per-character kind of the bank code (a letter in a numeric field is drawn too), BIC present
+            kinds = "".join("d" if c in "0123456789" else "U" if "A" <= c <= "Z" else "o" for c in (e.get("bank_code") or ""))
+            by.setdefault((kinds, bool(e.get("bic"))), e)
         return list(by.values())
     return seq if len(seq) <= 6 else [seq[0], seq[len(seq) // 2], seq[-1]]
 
 
 def run(ctx, report):
+    from .premises import accessor_entries, stateless_premise
+    stateless_premise(ctx, report, "R13-P1-stateless", ["random"], extra=None, stop=("schwifty.bban.BBAN.validate_national_checksum",), outside=("schwifty.bic", "schwifty.checksum.germany"))
     prog = ctx.program
     reg = ctx.registry
     facts = ctx.facts
@@ -376,6 +380,13 @@ def _wrapped_in_sorted(f, call):
     return False
 
 
+def _strip_casts(e):
+    """typing.cast(T, x) is x; the subscripts of the type expression T say nothing about the value"""
+    while isinstance(e, ast.Call) and isinstance(e.func, (ast.Name, ast.Attribute)) and (e.func.id if isinstance(e.func, ast.Name) else e.func.attr) == "cast" and len(e.args) == 2:
+        e = e.args[1]
+    return e
+
+
 def _iban_table_iterated(prog, eff):
     """Does any function outside registry.py iterate the merged country table itself?"""
     for f in eff.funcs:
@@ -396,7 +407,7 @@ def _iban_table_iterated(prog, eff):
             changed = False
             for n in eff.own_nodes(f):
                 if isinstance(n, (ast.Assign, ast.AnnAssign, ast.NamedExpr)) and getattr(n, "value", None) is not None:
-                    v = n.value
+                    v = _strip_casts(n.value)
                     # the table itself (also through a conditional expression / cast), not one country's entry
                     if isinstance(v, ast.Subscript):
                         continue
@@ -416,6 +427,7 @@ def _iban_table_iterated(prog, eff):
             if isinstance(n, ast.Call) and isinstance(n.func, ast.Name) and n.func.id in ("list", "tuple") and n.args:
                 its.append(n.args[0])
             for e in its:
+                e = _strip_casts(e)
                 root = e
                 while isinstance(root, (ast.Call, ast.Attribute)):
                     if isinstance(root, ast.Call) and reads_iban_table(root) and not isinstance(root.func, ast.Attribute):
